@@ -18,7 +18,7 @@ ID = "C12"
 RULE = (
     "Hypothesis @given: a source model (forest with divisions/skip edges, times, 2D/3D positions, "
     "custom int/float/str/list columns, a unique uid per node) rendered (a) to a DataFrame with "
-    "arbitrary distinct column names, shuffled rows, roots encoded as -1 / NaN / empty, ids int "
+    "arbitrary distinct column names, shuffled rows, non-default index labels, roots encoded as -1 / NaN / empty, ids int "
     "contiguous / non-contiguous / 0-based / string / float, position columns mapped in any order; "
     "(b) to a GEFF store written with geff.write under renamed property names with edge "
     "properties. Imported with the matching explicit key mapping. Oracle: node set == source ids "
@@ -36,7 +36,7 @@ ASSUMPTIONS = ["explicit key mappings (the inferred map is C17's subject)", "pan
 REQUIRED_CLASSES = {t: ["c12:ids=str", "c12:ids=noncontig", "c12:ids=float", "c12:renamed", "c12:3D",
                         "c12:malformed:duplicate_id", "c12:malformed:unknown_parent", "c12:malformed:self_link",
                         "c12:malformed:missing_column", "c12:malformed:unmapped_key", "part:geff",
-                        "c12:crossed_single_value_names", "c12:geff_malformed:duplicate_id",
+                        "c12:crossed_single_value_names", "c12:non_default_index", "c12:geff_malformed:duplicate_id",
                         "c12:geff_malformed:unknown_parent", "c12:geff_malformed:self_link"]
                     for t in ("quick", "thorough")}
 
@@ -111,7 +111,7 @@ def sources(draw, geff=False):
     return {"nodes": nodes, "nsp": nsp, "idkind": idkind, "cols": cols, "renamed": renamed, "crossed": crossed,
             "pos_order": list(pos_order), "customs": customs,
             "root": draw(st.sampled_from(["minus1", "nan", "empty"])),
-            "shuffle": draw(st.integers(0, 8)),
+            "shuffle": draw(st.integers(0, 8)), "index_mode": draw(st.sampled_from([0, 0, 1, 2, 3, 4])),
             "mutation": draw(st.sampled_from([None, None, None, "duplicate_id", "unknown_parent", "self_link",
                                               "missing_column", "unmapped_key", "mapped_to_missing"])),
             "mpick": draw(st.integers(0, 100))}
@@ -146,6 +146,17 @@ def _frame(inp):
     if inp["shuffle"] % 2:
         rows.reverse()
     df = pd.DataFrame(rows)
+    # a source frame is often the result of sorting / filtering: its index need not be 0..n-1
+    imode = inp.get("index_mode", 0)
+    if imode == 1:
+        df = df.iloc[::-1]
+    elif imode == 2:
+        df.index = [7 + 3 * i for i in range(len(df))]
+    elif imode == 3:
+        df = df.iloc[[(i * 2 + 1) % len(df) if len(df) % 2 else i for i in range(len(df))]] if len(df) > 1 else df
+        df = df.iloc[::-1]
+    elif imode == 4:
+        df.index = [f"r{i}" for i in range(len(df))]
     nm = {"time": cols["time"], "id": cols["id"], "parent_id": cols["parent_id"],
           "pos": [cols[axes[i]] for i in inp["pos_order"]], "uid": cols["uid"]}
     for k2 in inp["customs"]:
@@ -298,6 +309,8 @@ def _classify(res, inp, part):
         res.tags.append("c12:renamed")
     if inp.get("crossed"):
         res.tags.append("c12:crossed_single_value_names")
+    if inp.get("index_mode"):
+        res.tags.append("c12:non_default_index")
     if inp["nsp"] == 3:
         res.tags.append("c12:3D")
     if has_edge and (inp["renamed"] or inp["idkind"] != "contig" or inp["customs"] or inp["nsp"] == 3):
